@@ -9,6 +9,7 @@ import QuaiVerif.Driver.EtxQ
 import QuaiVerif.Driver.Conv
 import QuaiVerif.Driver.Lockup
 import QuaiVerif.Driver.Utxo
+import QuaiVerif.Driver.Mem
 /- qvdriver: `qvdriver <area>` reads protocol lines on stdin, answers one line per line. -/
 open QuaiVerif
 
@@ -26,5 +27,6 @@ def main (args : List String) : IO UInt32 := do
   | ["conv"] => ioLoop Convert.step stdin stdout (); return 0
   | ["lockup"] => ioLoop Lockup.step stdin stdout {}; return 0
   | ["utxo"] => ioLoop Utxo.step stdin stdout {}; return 0
+  | ["mem"] => ioLoop Mem.step' stdin stdout (); return 0
   | ["addr"] => ioLoop Addr.step stdin stdout {}; return 0
   | _ => IO.eprintln "usage: qvdriver <area>"; return 2
